@@ -1,5 +1,161 @@
-/- Model for C08 (core Lean only, no Mathlib). -/
+/-
+Model of `_norm_anchor`, `GeoBox.from_bbox` and `GeoBox.from_geopolygon`
+(`odc/geo/geobox.py:83-101, 496-652`), core Lean only.  The one-axis snapping
+(`snap_grid` & friends, `maybe_int`, `split_float`) is modelled in `OdcGeo.Model.C20`.
+
+Not modelled: the CRS argument (`_norm_bbox`, `to_crs`: the bounding box is taken in the
+CRS of the result), non-finite coordinates.
+-/
 import OdcGeo.Model.IO
+import OdcGeo.Model.Affine
+import OdcGeo.Model.C20
 namespace OdcGeo.C08
+open OdcGeo.C20 (snapGrid)
+
+/-- Normalised anchor: an `AnchorEnum` member or an `XY` of pixel fractions. -/
+inductive Anchor where
+  | edge
+  | center
+  | floating
+  | xy (x y : Rat)
+  deriving DecidableEq, Repr
+
+/-- The strings `_norm_anchor` understands. -/
+inductive AnchorName where
+  | center | centre | edge | floating | default
+  deriving DecidableEq, Repr
+
+/-- The `anchor=` argument: an `AnchorEnum` / `XY` (passed through), a number, a name. -/
+inductive AnchorArg where
+  | val (a : Anchor)
+  | num (v : Rat)
+  | name (n : AnchorName)
+  deriving DecidableEq, Repr
+
+/-- `_norm_anchor(anchor)` -/
+def normAnchor : AnchorArg → Anchor
+  | .val a => a
+  | .num v => if v = 0 then .edge else if v = 1 / 2 then .center else .xy v v
+  | .name .center => .center
+  | .name .centre => .center
+  | .name .edge => .edge
+  | .name .floating => .floating
+  | .name .default => .edge
+
+/-- The `_snap` variable of `from_bbox`: `none` = floating. -/
+def snapOf (tight : Bool) (a : Anchor) : Option (Rat × Rat) :=
+  match (if tight then Anchor.floating else a) with
+  | .xy x y => some (x, y)
+  | .edge => some (0, 0)
+  | .center => some (1 / 2, 1 / 2)
+  | .floating => none
+
+structure BBox where
+  left : Rat
+  bottom : Rat
+  right : Rat
+  top : Rat
+  deriving DecidableEq, Repr
+
+def BBox.spanX (b : BBox) : Rat := b.right - b.left
+def BBox.spanY (b : BBox) : Rat := b.top - b.bottom
+
+/-- `shape=` argument: absent, a single number (pixels along the longest side), `(ny, nx)`. -/
+inductive ShapeArg where
+  | none
+  | int (n : Int)
+  | yx (ny nx : Int)
+  deriving DecidableEq, Repr
+
+/-- `resolution=` argument: absent, a number `r` (meaning `(r, -r)`), a `Resolution(x, y)`. -/
+inductive ResArg where
+  | none
+  | scalar (r : Rat)
+  | xy (rx ry : Rat)
+  deriving DecidableEq, Repr
+
+/-- `res_(resolution).xy` -/
+def ResArg.xy? : ResArg → Option (Rat × Rat)
+  | .none => Option.none
+  | .scalar r => some (r, -r)
+  | .xy rx ry => some (rx, ry)
+
+structure GeoBox where
+  ny : Int
+  nx : Int
+  affine : Aff
+  deriving DecidableEq, Repr
+
+/-- World extent of a geobox with an axis-aligned affine (specification vocabulary). -/
+def GeoBox.xmin (g : GeoBox) : Rat := min g.affine.c (g.affine.c + (g.nx : Rat) * g.affine.a)
+def GeoBox.xmax (g : GeoBox) : Rat := max g.affine.c (g.affine.c + (g.nx : Rat) * g.affine.a)
+def GeoBox.ymin (g : GeoBox) : Rat := min g.affine.f (g.affine.f + (g.ny : Rat) * g.affine.e)
+def GeoBox.ymax (g : GeoBox) : Rat := max g.affine.f (g.affine.f + (g.ny : Rat) * g.affine.e)
+
+/-- The single-number `shape` is turned into a resolution first (geobox.py:552-557); this
+overrides a `resolution` argument. -/
+def intShapeToRes (bb : BBox) (shape : ShapeArg) (res : ResArg) : Res (ShapeArg × ResArg) :=
+  match shape with
+  | .int n =>
+    if bb.spanY = 0 then .error .zeroDiv                 -- `bbox.aspect`
+    else if n = 0 then .error .zeroDiv
+    else if bb.spanX / bb.spanY > 1 then .ok (.none, .scalar (bb.spanX / (n : Rat)))
+    else .ok (.none, .scalar (bb.spanY / (n : Rat)))
+  | s => .ok (s, res)
+
+/-- `GeoBox.from_bbox(bbox, tight=, shape=, resolution=, anchor=, tol=)` -/
+def fromBbox (bb : BBox) (tight : Bool) (shape : ShapeArg) (res : ResArg) (anchor : AnchorArg)
+    (tol : Rat) : Res GeoBox := do
+  let snap := snapOf tight (normAnchor anchor)
+  let (shape, res) ← intShapeToRes bb shape res
+  match res.xy? with
+  | some (rx, ry) =>
+    let (offx, nx) ← snapGrid bb.left bb.right rx (snap.map (·.1)) tol
+    let (offy, ny) ← snapGrid bb.bottom bb.top ry (snap.map (·.2)) tol
+    return ⟨ny, nx, Aff.translation offx offy * Aff.scale rx ry⟩
+  | Option.none =>
+    match shape with
+    | .yx ny nx =>
+      if nx = 0 then .error .zeroDiv
+      else if ny = 0 then .error .zeroDiv
+      else
+        let rx := bb.spanX / (nx : Rat)
+        let ry := -bb.spanY / (ny : Rat)
+        match snap with
+        | Option.none =>
+          return ⟨ny, nx, Aff.translation bb.left bb.top * Aff.scale rx ry⟩
+        | some (sx, sy) =>
+          let (offx, _) ← snapGrid bb.left bb.right rx (some sx) tol
+          let (offy, _) ← snapGrid bb.bottom bb.top ry (some sy) tol
+          return ⟨ny, nx, Aff.translation offx offy * Aff.scale rx ry⟩
+    | _ => .error .valueError
+
+/-! ### `from_geopolygon` -/
+
+/-- `geopolygon.boundingbox` of a non-empty vertex list (shapely `bounds`). -/
+def bboxOfPts (p : Rat × Rat) (ps : List (Rat × Rat)) : BBox :=
+  ⟨ps.foldl (fun m q => min m q.1) p.1, ps.foldl (fun m q => min m q.2) p.2,
+   ps.foldl (fun m q => max m q.1) p.1, ps.foldl (fun m q => max m q.2) p.2⟩
+
+/-- Old-style `align=` → anchor (geobox.py:629-638). -/
+def alignToAnchor (align : Option (Rat × Rat)) (res : ResArg) (anchor : AnchorArg) :
+    Res (ResArg × AnchorArg) :=
+  match align with
+  | Option.none => .ok (res, anchor)
+  | some (ax, ay) =>
+    if ax = 0 ∧ ay = 0 then .ok (res, .val .edge)
+    else match res.xy? with
+      | Option.none => .error .assertion
+      | some (rx, ry) =>
+        if rx = 0 ∨ ry = 0 then .error .zeroDiv
+        else .ok (.xy rx ry, .val (.xy (ax / C20.rabs rx) (ay / C20.rabs ry)))
+
+/-- `GeoBox.from_geopolygon(poly, resolution, align=, shape=, tight=, anchor=, tol=)` with the
+polygon given by its vertices, no CRS change. -/
+def fromGeopolygon (p : Rat × Rat) (ps : List (Rat × Rat)) (res : ResArg)
+    (align : Option (Rat × Rat)) (shape : ShapeArg) (tight : Bool) (anchor : AnchorArg)
+    (tol : Rat) : Res GeoBox := do
+  let (res, anchor) ← alignToAnchor align res anchor
+  fromBbox (bboxOfPts p ps) tight shape res anchor tol
 
 end OdcGeo.C08
